@@ -315,7 +315,8 @@ theorem liveCount_of_nodup (insts : List Soft) (s : Soft) (hn : (insts.map (·.n
 /-- If no software name is installed twice on a node, every install request yields exactly one live instance, registered under
 its name with its own options. -/
 theorem softInventory_of_nodup (insts : List Soft) (hn : (insts.map (·.name)).Nodup) :
-    softInventory insts = insts.map fun s => { name := s.name, isApp := s.isApp, opts := s.opts, live := 1 } := by
+    softInventory insts = insts.map fun s =>
+      { name := s.name, isApp := s.isApp, opts := s.opts, live := 1, running := s.running, health := s.health } := by
   unfold softInventory
   apply List.map_congr_left
   intro s hs
@@ -412,9 +413,77 @@ theorem lastRequests_names (reqs : List Soft) : ∀ s ∈ reqs, s.name ∈ (last
 /-- the loader's software inventory: one live instance per requested name, carrying the options of the last request. -/
 theorem softInventory_installed (reqs : List Soft) :
     softInventory (installedAfter reqs)
-      = (lastRequests reqs).map fun s => { name := s.name, isApp := s.isApp, opts := s.opts, live := 1 } := by
+      = (lastRequests reqs).map fun s =>
+          { name := s.name, isApp := s.isApp, opts := s.opts, live := 1, running := s.running, health := s.health } := by
   rw [installedAfter_eq_lastRequests]
   exact softInventory_of_nodup _ (lastRequests_nodup reqs)
+
+/-! ### initial state of software: started exactly on a node that is ON -/
+
+theorem startSw_name (p : Power) (s : Soft) : (startSw p s).name = s.name := by
+  unfold startSw; split <;> rfl
+
+theorem newInstance_name (p : Power) (r : SoftReq) : (newInstance p r).name = r.name := by
+  unfold newInstance
+  cases r.initStarts <;> cases r.isApp <;> cases r.configured <;> simp [startSw_name]
+
+/-- selecting the last request per name commutes with any name-preserving construction of the instances -/
+theorem lastRequests_map (f : SoftReq → Soft) (hf : ∀ r, (f r).name = r.name) :
+    ∀ reqs : List SoftReq, lastRequests (reqs.map f) = (lastReqs reqs).map f := by
+  intro reqs
+  induction reqs with
+  | nil => rfl
+  | cons r rest ih =>
+    simp only [List.map_cons, lastRequests, lastReqs, List.any_map, ih]
+    have : (rest.any ((fun x => decide (x.name = (f r).name)) ∘ f)) = rest.any (fun x => decide (x.name = r.name)) := by
+      congr 1; funext x; simp [hf]
+    rw [this]
+    split <;> simp
+
+/-- software on a node that is not ON is never started: whatever the class's constructor, `install` and the loader attempt,
+the instance stays STOPPED / CLOSED with its configured starting health. -/
+theorem newInstance_not_on (p : Power) (hp : p ≠ .on) (r : SoftReq) :
+    newInstance p r = ({ name := r.name, isApp := r.isApp, opts := r.opts, running := false, health := r.health0 } : Soft) := by
+  have hs : ∀ s : Soft, startSw p s = s := by intro s; simp [startSw, hp]
+  unfold newInstance
+  cases r.initStarts <;> cases r.isApp <;> cases r.configured <;> simp [hs]
+
+/-- on a node that is ON, the final `power_on()` leaves every instance RUNNING, and a starting health of UNUSED has become GOOD —
+for EVERY combination of "constructor starts it", "service or application", "configured entry or system software". -/
+theorem startSw_newInstance_on (r : SoftReq) :
+    startSw .on (newInstance .on r) =
+      ({ name := r.name, isApp := r.isApp, opts := r.opts, running := true,
+         health := (if r.health0 = .unused then .good else r.health0) } : Soft) := by
+  unfold newInstance
+  cases hh : r.health0 <;> cases r.initStarts <;> cases r.isApp <;> cases r.configured <;> simp [startSw, hh]
+
+/-- **initial software state**: after loading, the software of a node whose declared operating state is `p` — one instance per
+requested name, RUNNING iff `p` is ON, health = the configured starting health (UNUSED → GOOD once started). -/
+theorem softInventory_loaded (p : Power) (k : Kind) (n : NodeCfg) :
+    softInventory (powerOnSoftware p (installedAfter (installAll p k n))) = declaredSoftware p k n := by
+  unfold installAll declaredSoftware
+  rw [installedAfter_eq_lastRequests, lastRequests_map _ (newInstance_name p)]
+  by_cases hp : p = .on
+  · subst hp
+    have hnd : (List.map (·.name) (((lastReqs (installRequests k n)).map (newInstance .on)).map (startSw .on))).Nodup := by
+      have := lastRequests_nodup ((installRequests k n).map (newInstance .on))
+      rw [lastRequests_map _ (newInstance_name .on)] at this
+      simpa [List.map_map, Function.comp_def, startSw_name] using this
+    simp only [powerOnSoftware, if_true]
+    rw [softInventory_of_nodup _ hnd]
+    simp only [List.map_map]
+    apply List.map_congr_left
+    intro r _
+    by_cases hh : r.health0 = .unused <;> simp [startSw_newInstance_on, hh]
+  · have hnd : (List.map (·.name) ((lastReqs (installRequests k n)).map (newInstance p))).Nodup := by
+      have := lastRequests_nodup ((installRequests k n).map (newInstance p))
+      rwa [lastRequests_map _ (newInstance_name p)] at this
+    simp only [powerOnSoftware, hp, if_false]
+    rw [softInventory_of_nodup _ hnd]
+    simp only [List.map_map]
+    apply List.map_congr_left
+    intro r _
+    simp [newInstance_not_on p hp, hp]
 
 /-! ### add-if-absent loops (users, folders, files, agents) -/
 
@@ -550,7 +619,7 @@ def AclOk (m : Assoc Nat Rule) : Prop := (keys m).Nodup ∧ ∀ k ∈ keys m, k 
 
 /-- what the documentation asks of one node entry (all decidable). -/
 structure NodeWF (n : NodeCfg) : Prop where
-  hostIp : (n.kind = .computer ∨ n.kind = .server) → n.ip.isSome
+  hostIp : (n.kind = .computer ∨ n.kind = .server ∨ n.kind = .printer) → n.ip.isSome
   ports : (keys n.ports).Nodup ∧ ∀ k ∈ keys n.ports, 1 ≤ k ∧ k ≤ n.numPorts.getD defaultRouterPorts
   acl : AclOk n.acl
   fwPorts : n.fwPorts = [] ∨ ((alookup "internal_port" n.fwPorts).isSome ∧ (alookup "external_port" n.fwPorts).isSome)
@@ -567,6 +636,8 @@ def linkOk (nodes : List NodeInv) (l : LinkCfg) : Bool :=
 
 structure WellFormed (s : Scenario) : Prop where
   nodes : ∀ n ∈ s.nodes, NodeWF n
+  /-- "The hostname of the node. This will be used to reference the node." -/
+  hostnames : (s.nodes.map (·.hostname)).Nodup
   links : ∀ l ∈ s.links, linkOk (s.nodes.map declaredNode) l = true
   agents : (s.agents.map (·.ref)).Nodup
 
@@ -623,40 +694,102 @@ theorem fwNic_eq (n : NodeCfg) (key name : String) (mand : Bool)
     · simp [hl] at h
     · simp [h]
 
-/-- One node entry: the loader builds exactly what the entry declares. -/
+/-- an interface that has no link: `power_on()` / `connect_nic` cannot enable it -/
+theorem powerOnNics_unwired (p : Power) (nics : List Nic) (h : ∀ c ∈ nics, c.wired = false) : powerOnNics p nics = nics := by
+  unfold powerOnNics
+  split
+  · have : ∀ c ∈ nics, enableNic p c = c := by
+      intro c hc; simp [enableNic, h c hc]
+    exact (List.map_congr_left this).trans (List.map_id _)
+  · rfl
+
+/-- the interfaces of a freshly built node have no link and are disabled (links come later) -/
+theorem declaredNode_fresh (n : NodeCfg) : ∀ c ∈ (declaredNode n).nics, c.wired = false ∧ c.enabled = false := by
+  intro c hc
+  unfold declaredNode at hc
+  cases hk : n.kind <;> simp only [hk] at hc
+  · rcases List.mem_cons.mp hc with rfl | hc
+    · exact ⟨rfl, rfl⟩
+    · simp only [declaredNics, List.mem_map] at hc
+      obtain ⟨e, _, rfl⟩ := hc
+      exact ⟨rfl, rfl⟩
+  · rcases List.mem_cons.mp hc with rfl | hc
+    · exact ⟨rfl, rfl⟩
+    · simp only [declaredNics, List.mem_map] at hc
+      obtain ⟨e, _, rfl⟩ := hc
+      exact ⟨rfl, rfl⟩
+  · rcases List.mem_cons.mp hc with rfl | hc
+    · exact ⟨rfl, rfl⟩
+    · simp only [declaredNics, List.mem_map] at hc
+      obtain ⟨e, _, rfl⟩ := hc
+      exact ⟨rfl, rfl⟩
+  · rcases List.mem_replicate.mp hc with ⟨_, rfl⟩
+    exact ⟨rfl, rfl⟩
+  · simp only [declaredPorts, List.mem_map] at hc
+    obtain ⟨i, _, rfl⟩ := hc
+    split <;> exact ⟨rfl, rfl⟩
+  · simp only [List.mem_cons, List.not_mem_nil, or_false] at hc
+    rcases hc with rfl | rfl | rfl <;> (unfold declaredFwNic; split <;> exact ⟨rfl, rfl⟩)
+
+/-- One node entry: the loader builds exactly what the entry declares (before any link is made). -/
 theorem buildNode_eq_declared (n : NodeCfg) (wf : NodeWF n) : buildNode n = .ok (declaredNode n) := by
-  have hsoft : softInventory (installedAfter (installAll n.kind n)) = declaredSoftware n.kind n := softInventory_installed _
+  have hsoft : softInventory (powerOnSoftware (n.power.getD .on) (installedAfter (installAll (n.power.getD .on) n.kind n)))
+      = declaredSoftware (n.power.getD .on) n.kind n := softInventory_loaded _ _ _
   have husers : buildUsers n = declaredUsers n := buildUsers_eq_declared n wf.users
   have hfold : buildFolders n = n.folders := buildFolders_eq_declared n wf.folders
+  have hfresh := declaredNode_fresh n
+  have hnics : powerOnNics (n.power.getD .on) (declaredNode n).nics = (declaredNode n).nics :=
+    powerOnNics_unwired _ _ (fun c hc => (hfresh c hc).1)
+  unfold declaredNode at hnics
   unfold buildNode declaredNode
   cases hk : n.kind with
   | computer =>
     rw [hk] at hsoft
+    simp only [hk] at hnics
     have := wf.hostIp (Or.inl hk)
     cases hip : n.ip with
     | none => simp [hip] at this
-    | some ip => simp [hk, hsoft, husers, hfold, declaredNics]
+    | some ip =>
+      rw [hip] at hnics
+      simp only [declaredNics] at hnics
+      simp [hk, hsoft, husers, hfold, declaredNics, hnics]
   | server =>
     rw [hk] at hsoft
-    have := wf.hostIp (Or.inr hk)
+    simp only [hk] at hnics
+    have := wf.hostIp (Or.inr (Or.inl hk))
     cases hip : n.ip with
     | none => simp [hip] at this
-    | some ip => simp [hk, hsoft, husers, hfold, declaredNics]
-  | switch => rw [hk] at hsoft; simp [hsoft]
+    | some ip =>
+      rw [hip] at hnics
+      simp only [declaredNics] at hnics
+      simp [hk, hsoft, husers, hfold, declaredNics, hnics]
+  | printer =>
+    rw [hk] at hsoft
+    simp only [hk] at hnics
+    have := wf.hostIp (Or.inr (Or.inr hk))
+    cases hip : n.ip with
+    | none => simp [hip] at this
+    | some ip =>
+      rw [hip] at hnics
+      simp only [declaredNics] at hnics
+      simp [hk, hsoft, husers, hfold, declaredNics, hnics]
+  | switch => rw [hk] at hsoft; simp only [hk] at hnics; simp [hsoft, hnics]
   | router =>
     rw [hk] at hsoft
+    simp only [hk] at hnics
     have hports := configurePorts_eq_spec n.ports (List.replicate (n.numPorts.getD defaultRouterPorts) (loopNic none)) wf.ports.1
       (by simpa using wf.ports.2)
     rw [portsSpec_replicate] at hports
     have hacl := addRules_eq_declared n.acl routerBaseAcl wf.acl.1 (by simpa [routerBaseAcl, aclSlots] using wf.acl.2)
-    simp [hk, hsoft, husers, hports, hacl]
+    simp [hk, hsoft, husers, hports, hacl, hnics]
   | firewall =>
     rw [hk] at hsoft
+    simp only [hk] at hnics
     have hi := fwNic_eq n "internal_port" "internal" true (by rcases wf.fwPorts with h | h; exact Or.inl h; exact Or.inr (Or.inl h.1))
     have he := fwNic_eq n "external_port" "external" true (by rcases wf.fwPorts with h | h; exact Or.inl h; exact Or.inr (Or.inl h.2))
     have hd := fwNic_eq n "dmz_port" "dmz" false (Or.inr (Or.inr rfl))
     have hacls := buildFwAcls_eq n fwAclNames wf.fwAcl
-    simp [hk, hsoft, husers, hi, he, hd, hacls, declaredFwAcls_eq]
+    simp [hk, hsoft, husers, hi, he, hd, hacls, declaredFwAcls_eq, hnics]
 
 theorem buildNodes_eq_declared (ns : List NodeCfg) (wf : ∀ n ∈ ns, NodeWF n) :
     buildNodes ns = .ok (ns.map declaredNode) := by
@@ -666,61 +799,272 @@ theorem buildNodes_eq_declared (ns : List NodeCfg) (wf : ∀ n ∈ ns, NodeWF n)
     simp only [buildNodes, buildNode_eq_declared n (wf n (by simp)),
       ih (fun m hm => wf m (by simp [hm])), List.map_cons]
 
-theorem buildLinks_eq_declared (nodes : List NodeInv) (ls : List LinkCfg) (h : ∀ l ∈ ls, linkOk nodes l = true) :
-    buildLinks nodes ls = .ok (ls.map declaredLink) := by
-  induction ls with
+theorem buildLink_eq_declared (nodes : List NodeInv) (l : LinkCfg) (hl : linkOk nodes l = true) :
+    buildLink nodes l = .ok (declaredLink l) := by
+  unfold linkOk at hl
+  unfold buildLink declaredLink
+  cases ha : findNode nodes l.a with
+  | none => simp [ha] at hl
+  | some na =>
+    cases hb : findNode nodes l.b with
+    | none => simp [ha, hb] at hl
+    | some nb =>
+      simp only [ha, hb, decide_eq_true_eq] at hl
+      have h4 : 1 ≤ l.pa ∧ l.pa ≤ na.nics.length ∧ 1 ≤ l.pb ∧ l.pb ≤ nb.nics.length := ⟨hl.1, hl.2.1, hl.2.2.1, hl.2.2.2.1⟩
+      simp [h4, hl.2.2.2.2]
+
+/-! ### initial state of the interfaces: wired iff a link of the file ends there, enabled iff wired and the node is ON -/
+
+/-- the effect on one interface of "some link of the file ends here" -/
+def wire (p : Power) (w : Bool) (c : Nic) : Nic :=
+  if w then { c with wired := true, enabled := decide (p = .on) } else c
+
+def Fresh (c : Nic) : Prop := c.wired = false ∧ c.enabled = false
+
+theorem declaredWiring_eq (links : List LinkCfg) (n : NodeInv) :
+    declaredWiring links n =
+      { n with nics := n.nics.mapIdx fun i c => wire n.power (namesEndpoint links n.hostname (i + 1)) c } := by
+  unfold declaredWiring wire
+  rfl
+
+/-- attaching a link to an interface the earlier links did or did not reach: the result is "wired; enabled iff ON" either way
+(`connect_link` refuses a second link, and the first one already left that state). -/
+theorem plug_wire (p : Power) (w : Bool) (c : Nic) (hc : Fresh c) : plug p (wire p w c) = wire p true c := by
+  obtain ⟨h1, h2⟩ := hc
+  cases c with
+  | mk name ip mask wired enabled =>
+    simp only at h1 h2
+    subst h1; subst h2
+    cases w <;> by_cases hp : p = .on <;> simp [plug, wire, enableNic, hp]
+
+theorem modify_plug_mapIdx (p : Power) (nics : List Nic) (hf : ∀ c ∈ nics, Fresh c) (W : Nat → Bool) (port : Nat)
+    (hport : 1 ≤ port) :
+    (nics.mapIdx fun i c => wire p (W i) c).modify (port - 1) (plug p)
+      = nics.mapIdx fun i c => wire p (W i || decide (port = i + 1)) c := by
+  apply List.ext_getElem?
+  intro j
+  simp only [List.getElem?_modify, List.getElem?_mapIdx]
+  cases hj : nics[j]? with
+  | none => simp
+  | some c =>
+    have hc : Fresh c := hf c (List.mem_of_getElem? hj)
+    simp only [Option.map_some]
+    by_cases hpj : port - 1 = j
+    · have : port = j + 1 := by omega
+      simp [hpj, this, plug_wire p (W j) c hc]
+    · have : ¬ port = j + 1 := by omega
+      simp [hpj, this]
+
+theorem plugAt_eq_map (nodes : List NodeInv) (h : String) (port : Nat) (hn : (nodes.map (·.hostname)).Nodup) :
+    plugAt nodes h port = nodes.map fun n => if n.hostname = h then plugNode n port else n := by
+  induction nodes with
   | nil => rfl
+  | cons n rest ih =>
+    simp only [List.map_cons, List.nodup_cons] at hn
+    simp only [plugAt, List.map_cons]
+    by_cases hh : n.hostname = h
+    · simp only [hh, if_true]
+      congr 1
+      have : ∀ m ∈ rest, (if m.hostname = h then plugNode m port else m) = m := by
+        intro m hm
+        have : ¬ m.hostname = h := fun e => hn.1 (by rw [hh, ← e]; exact List.mem_map_of_mem (f := (·.hostname)) hm)
+        simp [this]
+      exact ((List.map_congr_left this).trans (List.map_id _)).symm
+    · simp only [hh, if_false]
+      congr 1
+      exact ih hn.2
+
+theorem findNode_map (f : NodeInv → NodeInv) (hf : ∀ n, (f n).hostname = n.hostname) (nodes : List NodeInv) (h : String) :
+    findNode (nodes.map f) h = (findNode nodes h).map f := by
+  unfold findNode
+  rw [List.find?_map]
+  have : ((fun x : NodeInv => decide (x.hostname = h)) ∘ f) = (fun x : NodeInv => decide (x.hostname = h)) := by
+    funext n; simp [Function.comp, hf]
+  rw [this]
+
+theorem declaredWiring_hostname (links : List LinkCfg) (n : NodeInv) : (declaredWiring links n).hostname = n.hostname := rfl
+theorem declaredWiring_power (links : List LinkCfg) (n : NodeInv) : (declaredWiring links n).power = n.power := rfl
+theorem declaredWiring_length (links : List LinkCfg) (n : NodeInv) : (declaredWiring links n).nics.length = n.nics.length := by
+  simp [declaredWiring]
+
+theorem linkOk_wired (done : List LinkCfg) (nodes : List NodeInv) (l : LinkCfg) :
+    linkOk (nodes.map (declaredWiring done)) l = linkOk nodes l := by
+  unfold linkOk
+  rw [findNode_map _ (declaredWiring_hostname done), findNode_map _ (declaredWiring_hostname done)]
+  cases findNode nodes l.a <;> cases findNode nodes l.b <;> simp [declaredWiring_length]
+
+theorem namesEndpoint_snoc (done : List LinkCfg) (l : LinkCfg) (h : String) (port : Nat) :
+    namesEndpoint (done ++ [l]) h port
+      = (namesEndpoint done h port || ((decide (l.a = h) && decide (l.pa = port)) || (decide (l.b = h) && decide (l.pb = port)))) := by
+  simp [namesEndpoint, List.any_append]
+
+theorem mapIdx_congr_fun {α β} (f g : Nat → α → β) (l : List α) (h : ∀ i c, f i c = g i c) : l.mapIdx f = l.mapIdx g := by
+  have : f = g := by funext i c; exact h i c
+  rw [this]
+
+/-- `connect_link` at interface `port` of node `n` when the node is the one named (`b`), nothing otherwise -/
+theorem plugIf_wired (n : NodeInv) (hfresh : ∀ c ∈ n.nics, Fresh c) (W : Nat → Bool) (h : String) (port : Nat) (hport : 1 ≤ port) :
+    (fun m : NodeInv => if m.hostname = h then plugNode m port else m)
+        { n with nics := n.nics.mapIdx fun i c => wire n.power (W i) c }
+      = { n with nics := (n.nics.mapIdx fun i c =>
+            wire n.power (W i || (decide (n.hostname = h) && decide (port = i + 1))) c) } := by
+  by_cases hb : n.hostname = h
+  · simp only [hb, if_true, plugNode, modify_plug_mapIdx n.power n.nics hfresh W port hport, decide_true, Bool.true_and]
+  · simp only [hb, if_false, decide_false, Bool.false_and, Bool.or_false]
+
+/-- one `Network.connect`: after the links `done`, attaching link `l` at both ends gives the state "after `done ++ [l]`". -/
+theorem plug_step (n : NodeInv) (hfresh : ∀ c ∈ n.nics, Fresh c) (done : List LinkCfg) (l : LinkCfg)
+    (hpa : 1 ≤ l.pa) (hpb : 1 ≤ l.pb) :
+    (fun m : NodeInv => if m.hostname = l.b then plugNode m l.pb else m)
+      ((fun m : NodeInv => if m.hostname = l.a then plugNode m l.pa else m) (declaredWiring done n))
+      = declaredWiring (done ++ [l]) n := by
+  rw [declaredWiring_eq, declaredWiring_eq, plugIf_wired n hfresh _ l.a l.pa hpa, plugIf_wired n hfresh _ l.b l.pb hpb]
+  congr 1
+  apply mapIdx_congr_fun
+  intro i c
+  rw [namesEndpoint_snoc]
+  congr 1
+  have e1 : decide (n.hostname = l.a) = decide (l.a = n.hostname) := by
+    by_cases h : n.hostname = l.a
+    · simp [h]
+    · have : ¬ l.a = n.hostname := fun e => h e.symm
+      simp [h, this]
+  have e2 : decide (n.hostname = l.b) = decide (l.b = n.hostname) := by
+    by_cases h : n.hostname = l.b
+    · simp [h]
+    · have : ¬ l.b = n.hostname := fun e => h e.symm
+      simp [h, this]
+  rw [e1, e2, Bool.or_assoc]
+
+/-- **the `links` loop**: starting from freshly built nodes, after the whole list every interface a link of the file ends at is
+wired, and enabled iff its node is ON; every other interface is untouched; the links are the declared ones. -/
+theorem buildLinks_eq_declared (N0 : List NodeInv) (hfresh : ∀ n ∈ N0, ∀ c ∈ n.nics, Fresh c)
+    (hnd : (N0.map (·.hostname)).Nodup) :
+    ∀ (rest done : List LinkCfg), (∀ l ∈ rest, linkOk N0 l = true) →
+      buildLinks (N0.map (declaredWiring done)) rest
+        = .ok (N0.map (declaredWiring (done ++ rest)), rest.map declaredLink) := by
+  intro rest
+  induction rest with
+  | nil => intro done _; simp [buildLinks]
   | cons l rest ih =>
+    intro done h
     have hl := h l (by simp)
-    have hone : buildLink nodes l = .ok (declaredLink l) := by
+    have hone : buildLink (N0.map (declaredWiring done)) l = .ok (declaredLink l) :=
+      buildLink_eq_declared _ l (by rw [linkOk_wired]; exact hl)
+    have hports : 1 ≤ l.pa ∧ 1 ≤ l.pb := by
       unfold linkOk at hl
-      unfold buildLink declaredLink
-      cases ha : findNode nodes l.a with
+      cases ha : findNode N0 l.a with
       | none => simp [ha] at hl
       | some na =>
-        cases hb : findNode nodes l.b with
+        cases hb : findNode N0 l.b with
         | none => simp [ha, hb] at hl
         | some nb =>
           simp only [ha, hb, decide_eq_true_eq] at hl
-          have h4 : 1 ≤ l.pa ∧ l.pa ≤ na.nics.length ∧ 1 ≤ l.pb ∧ l.pb ≤ nb.nics.length := ⟨hl.1, hl.2.1, hl.2.2.1, hl.2.2.2.1⟩
-          simp [h4, hl.2.2.2.2]
-    simp only [buildLinks, hone, ih (fun m hm => h m (by simp [hm])), List.map_cons]
+          exact ⟨hl.1, hl.2.2.1⟩
+    have hnd' : ((N0.map (declaredWiring done)).map (·.hostname)).Nodup := by
+      simpa [List.map_map, Function.comp_def, declaredWiring_hostname] using hnd
+    have hnd'' : (((N0.map (declaredWiring done)).map
+        (fun m : NodeInv => if m.hostname = l.a then plugNode m l.pa else m)).map (·.hostname)).Nodup := by
+      have : ∀ m : NodeInv, (if m.hostname = l.a then plugNode m l.pa else m).hostname = m.hostname := by
+        intro m; split <;> rfl
+      have e : (fun x : NodeInv => (if (declaredWiring done x).hostname = l.a then plugNode (declaredWiring done x) l.pa
+          else declaredWiring done x).hostname) = (fun x : NodeInv => x.hostname) := by
+        funext x; rw [this]; rfl
+      simp only [List.map_map, Function.comp_def]
+      rw [e]; exact hnd
+    have hstep : plugAt (plugAt (N0.map (declaredWiring done)) l.a l.pa) l.b l.pb
+        = N0.map (declaredWiring (done ++ [l])) := by
+      rw [plugAt_eq_map _ _ _ hnd', plugAt_eq_map _ _ _ hnd'']
+      simp only [List.map_map]
+      apply List.map_congr_left
+      intro n hn
+      exact plug_step n (hfresh n hn) done l hports.1 hports.2
+    simp only [buildLinks, hone, hstep, ih (done ++ [l]) (fun m hm => h m (by simp [hm])), List.map_cons,
+      List.append_assoc, List.singleton_append]
 
 /-- the full statement of the first half of C20 for the modelled loader (was FALSE of the code before the F-22 repair, when it
 was kept as `…_partial` + `…_counterexample`; proved in full since `install` replaces an installed namesake). -/
 def C20_FullBuildEqDeclared : Prop := ∀ s : Scenario, WellFormed s → build s = .ok (declared s)
 
 /-- **build_eq_declared** (full strength). For every well-formed scenario the modelled loader builds exactly the declared
-inventory: nodes with their attributes, interfaces and addresses, ACL rules at their positions, routes, software with options
-(one live instance per name; an entry that configures pre-installed system software replaces the bare instance), users,
-folders/files, links with bandwidths, agents with action maps, rewards, settings. -/
+inventory: nodes with their attributes and declared operating state, interfaces and addresses — each wired iff a link of the file
+ends at it and enabled iff it is wired and its node is ON —, ACL rules at their positions, routes, software with options
+(one live instance per name; an entry that configures pre-installed system software replaces the bare instance), every piece of
+software RUNNING iff its node is ON with the configured starting health, users, folders/files, links with bandwidths, agents with
+action maps, rewards, settings. -/
 theorem C20_build_eq_declared (s : Scenario) (wf : WellFormed s) : build s = .ok (declared s) := by
   unfold build declared
   rw [buildNodes_eq_declared s.nodes wf.nodes]
-  simp only [buildLinks_eq_declared _ s.links wf.links, buildAgents_eq_declared s.agents wf.agents]
+  have hfresh : ∀ n ∈ s.nodes.map declaredNode, ∀ c ∈ n.nics, Fresh c := by
+    intro n hn c hc
+    obtain ⟨m, _, rfl⟩ := List.mem_map.mp hn
+    exact declaredNode_fresh m c hc
+  have hnd : ((s.nodes.map declaredNode).map (·.hostname)).Nodup := by
+    have : ∀ m : NodeCfg, (declaredNode m).hostname = m.hostname := fun _ => rfl
+    simpa [List.map_map, Function.comp_def, this] using wf.hostnames
+  have h0 : (s.nodes.map declaredNode).map (declaredWiring []) = s.nodes.map declaredNode := by
+    have : ∀ n : NodeInv, declaredWiring [] n = n := by
+      intro n
+      rw [declaredWiring_eq]
+      have : (n.nics.mapIdx fun i c => wire n.power (namesEndpoint [] n.hostname (i + 1)) c) = n.nics := by
+        apply List.ext_getElem?
+        intro j
+        simp [List.getElem?_mapIdx, namesEndpoint, wire]
+      rw [this]
+    exact (List.map_congr_left (fun n _ => this n)).trans (List.map_id _)
+  have := buildLinks_eq_declared _ hfresh hnd s.links [] wf.links
+  rw [h0] at this
+  simp only [this, List.nil_append, buildAgents_eq_declared s.agents wf.agents]
 
 theorem C20_build_eq_declared_full : C20_FullBuildEqDeclared := C20_build_eq_declared
 
 /-- **one instance per name**: for EVERY node entry (well-formed or not, any number of repeated or re-configured software
-entries) the built node never holds two live instances of one software name, and every name the entry or the node type asks
-for is present. -/
-theorem C20_software_one_instance_per_name (k : Kind) (n : NodeCfg) :
-    ((installedAfter (installAll k n)).map (·.name)).Nodup ∧
-    ∀ s ∈ installAll k n, s.name ∈ (installedAfter (installAll k n)).map (·.name) := by
+entries, any declared operating state) the built node never holds two live instances of one software name, and every name the
+entry or the node type asks for is present. -/
+theorem C20_software_one_instance_per_name (p : Power) (k : Kind) (n : NodeCfg) :
+    ((installedAfter (installAll p k n)).map (·.name)).Nodup ∧
+    ∀ s ∈ installAll p k n, s.name ∈ (installedAfter (installAll p k n)).map (·.name) := by
   rw [installedAfter_eq_lastRequests]
   exact ⟨lastRequests_nodup _, lastRequests_names _⟩
 
+/-- **initial software state** (every node entry, well-formed or not): after loading, every piece of software of a node is
+RUNNING iff the node's declared operating state is ON (STOPPED / CLOSED otherwise), and its health is the configured starting
+health (a starting health of UNUSED has become GOOD on a node that is ON). -/
+theorem C20_software_initial_state (p : Power) (k : Kind) (n : NodeCfg) :
+    ∀ sw ∈ softInventory (powerOnSoftware p (installedAfter (installAll p k n))),
+      sw.running = decide (p = .on) ∧ sw.live = 1 ∧
+      ∃ r ∈ installRequests k n, r.name = sw.name ∧ sw.opts = r.opts ∧
+        sw.health = (if p = .on ∧ r.health0 = .unused then .good else r.health0) := by
+  intro sw hsw
+  rw [softInventory_loaded] at hsw
+  unfold declaredSoftware at hsw
+  obtain ⟨r, hr, rfl⟩ := List.mem_map.mp hsw
+  refine ⟨rfl, rfl, r, ?_, rfl, rfl, rfl⟩
+  have sub : ∀ (l : List SoftReq), ∀ y ∈ lastReqs l, y ∈ l := by
+    intro l
+    induction l with
+    | nil => intro y hy; simp [lastReqs] at hy
+    | cons a t iht =>
+      intro y hy
+      unfold lastReqs at hy
+      split at hy
+      · exact List.mem_cons_of_mem _ (iht y hy)
+      · rcases List.mem_cons.mp hy with rfl | hy
+        · exact List.mem_cons_self
+        · exact List.mem_cons_of_mem _ (iht y hy)
+  exact sub _ r hr
+
 /-- **the configured entry wins**: an application entry whose type no later application entry repeats is the live instance of
 that name after loading, with its own options — also when the node type pre-installs software of that name. -/
-theorem C20_configured_application_wins (k : Kind) (n : NodeCfg) (pre post : List SwCfg) (c : SwCfg)
+theorem C20_configured_application_wins (p : Power) (k : Kind) (n : NodeCfg) (pre post : List SwCfg) (c : SwCfg)
     (h : n.applications = pre ++ c :: post) (hlast : ∀ d ∈ post, d.type ≠ c.type) :
-    ({ name := c.type, isApp := true, opts := c.opts } : Soft) ∈ installedAfter (installAll k n) := by
+    ∃ s ∈ installedAfter (installAll p k n), s.name = c.type ∧ s.isApp = true ∧ s.opts = c.opts := by
   rw [installedAfter_eq_lastRequests]
-  unfold installAll
+  unfold installAll installRequests
   rw [h]
   simp only [List.map_append, List.map_cons]
-  generalize ((systemSoftware k).map (fun (x : String × Bool) => ({ name := x.1, isApp := x.2, opts := "" } : Soft))
-      ++ installServices ((systemSoftware k).map (·.1)) n.services) = front
+  generalize (((systemSoftware k).map (fun (x : String × Bool) => ({ name := x.1, isApp := x.2, opts := "" } : SoftReq))).map
+      (newInstance p) ++ (installServices ((systemSoftware k).map (·.1)) n.services).map (newInstance p)) = front
   have key : ∀ (front : List Soft) (tail : List Soft) (s : Soft), (∀ d ∈ tail, d.name ≠ s.name) →
       s ∈ lastRequests (front ++ s :: tail) := by
     intro front tail s hs
@@ -735,11 +1079,16 @@ theorem C20_configured_application_wins (k : Kind) (n : NodeCfg) (pre post : Lis
       split
       · exact ih
       · exact List.mem_cons_of_mem _ ih
-  have := key (front ++ pre.map (fun c => ({ name := c.type, isApp := true, opts := c.opts } : Soft)))
-    (post.map (fun c => ({ name := c.type, isApp := true, opts := c.opts } : Soft)))
-    { name := c.type, isApp := true, opts := c.opts }
-    (by intro d hd; rcases List.mem_map.mp hd with ⟨e, he, rfl⟩; exact hlast e he)
-  simpa [List.append_assoc] using this
+  let mk : SwCfg → Soft := fun c => newInstance p
+    { name := c.type, isApp := true, opts := c.opts, health0 := c.health.getD .good, initStarts := c.initStarts, configured := true }
+  have hname : ∀ d : SwCfg, (mk d).name = d.type := fun d => newInstance_name p _
+  have := key (front ++ pre.map mk) (post.map mk) (mk c)
+    (by intro d hd; rcases List.mem_map.mp hd with ⟨e, he, rfl⟩; rw [hname, hname]; exact hlast e he)
+  refine ⟨mk c, by simpa [List.append_assoc, mk, Function.comp_def] using this, hname c, ?_, ?_⟩
+  · simp only [mk, newInstance]
+    cases c.initStarts <;> simp [startSw] <;> split <;> simp
+  · simp only [mk, newInstance]
+    cases c.initStarts <;> simp [startSw] <;> split <;> simp
 
 /-! ### key order of mappings is irrelevant -/
 
@@ -851,12 +1200,12 @@ theorem C20_node_key_order_irrelevant (n n' : NodeCfg) (hp : NodePerm n n') (hn 
     buildFwAcls_perm n n' (by rw [hrest]) hp.fwAcl hn.fwAcl hn.fwAclInner
   have hfw : ∀ k nm b, fwNic n' k nm b = fwNic n k nm b := by
     intro k nm b; simp only [fwNic, hfwp, hemp]
-  have hinst : ∀ k, installAll k n' = installAll k n := by intro k; rw [hrest]; rfl
+  have hinst : ∀ p k, installAll p k n' = installAll p k n := by intro p k; rw [hrest]; rfl
   have husers : buildUsers n' = buildUsers n := by rw [hrest]; rfl
   have hfold : buildFolders n' = buildFolders n := by rw [hrest]; rfl
   have hk : n'.kind = n.kind := by rw [hrest]
   have h1 : n'.hostname = n.hostname := by rw [hrest]
-  have h2 : n'.on = n.on := by rw [hrest]
+  have h2 : n'.power = n.power := by rw [hrest]
   have h3 : n'.startUp = n.startUp := by rw [hrest]
   have h4 : n'.shutDown = n.shutDown := by rw [hrest]
   have h5 : n'.dns = n.dns := by rw [hrest]
@@ -941,7 +1290,7 @@ instance (m : Assoc Nat Rule) : Decidable (AclOk m) := by unfold AclOk; infer_in
 instance (fs : List FolderCfg) : Decidable (FoldersOk fs) := by unfold FoldersOk; infer_instance
 
 theorem exShadow_wf : WellFormed exShadow := by
-  refine ⟨?_, by simp [exShadow], by simp [exShadow]⟩
+  refine ⟨?_, by decide, by simp [exShadow], by simp [exShadow]⟩
   intro n hn
   simp only [exShadow, List.mem_singleton] at hn
   subst hn
@@ -952,13 +1301,20 @@ theorem exShadow_wf : WellFormed exShadow := by
 example : build exShadow = .ok (declared exShadow) := C20_build_eq_declared exShadow exShadow_wf
 
 /-- exactly ONE live `web-browser`, the configured one. -/
-example : (softInventory (installedAfter (installAll .computer exShadowNode))).filter (·.name = "web-browser") =
-    [{ name := "web-browser", isApp := true, opts := "target_url=http://arcd.com/", live := 1 }] := by decide
+example : (softInventory (powerOnSoftware .on (installedAfter (installAll .on .computer exShadowNode)))).filter (·.name = "web-browser") =
+    [{ name := "web-browser", isApp := true, opts := "target_url=http://arcd.com/", live := 1, running := true, health := .good }] := by
+  decide
+
+/-- the same client declared `operating_state: "OFF"`: the browser is there with its option, CLOSED. -/
+example : (softInventory (powerOnSoftware .off (installedAfter (installAll .off .computer exShadowNode)))).filter (·.name = "web-browser") =
+    [{ name := "web-browser", isApp := true, opts := "target_url=http://arcd.com/", live := 1, running := false, health := .good }] := by
+  decide
 
 /-- what the code did before the repair (append without removing the namesake) is NOT what the file declares: the witness that
 was `C20_build_eq_declared_counterexample`, kept as a statement about the old `install`. -/
 theorem C20_install_without_replace_counterexample :
-    softInventory (installAll .computer exShadowNode) ≠ declaredSoftware .computer exShadowNode := by decide
+    softInventory (powerOnSoftware .on (installAll .on .computer exShadowNode)) ≠ declaredSoftware .on .computer exShadowNode := by
+  decide
 
 /-! ### non-vacuity: a concrete well-formed scenario with a router, ACL rules out of order, two hosts, a link, an agent -/
 
@@ -986,7 +1342,7 @@ def exScenario : Scenario :=
   { nodes := [exRouter, exHost], links := [{ a := "router_1", pa := 1, b := "db", pb := 1, bandwidth := none }], agents := [exAgent] }
 
 theorem exScenario_wf : WellFormed exScenario := by
-  refine ⟨?_, by decide, by decide⟩
+  refine ⟨?_, by decide, by decide, by decide⟩
   intro n hn
   simp only [exScenario, List.mem_cons, List.not_mem_nil, or_false] at hn
   rcases hn with rfl | rfl <;>
@@ -999,6 +1355,39 @@ example : (build exScenario).toOption.map (fun inv => inv.nodes.map fun n => (n.
 
 /-- with keys 2, 3 (declared as 3 then 2) NIC number = key: NIC 2 carries the entry under key 2, NIC 3 the one under key 3. -/
 example : (declaredNode exHost).nics.map (·.ip) = [some 0xC0A80A0A#32, some 0xC0A80B0A#32, some 0xAC100105#32] := by decide
+
+/-- initial states in the concrete scenario: the router is ON, port 1 is wired and enabled, ports 2 and 3 are not; all its
+software runs. -/
+example : (build exScenario).toOption.map (fun inv => inv.nodes.map fun n =>
+      (n.power, n.nics.map (fun c => (c.wired, c.enabled)), n.software.all (·.running))) =
+    some [(.on, [(true, true), (false, false), (false, false)], true),
+          (.on, [(true, true), (false, false), (false, false)], true)] := by decide
+
+/-- the same scenario with the database server declared `operating_state: "OFF"` and a starting health configured: its wired
+interface is NOT enabled (the router's end is), none of its software runs, the database service is COMPROMISED as declared. -/
+def exHostOff : NodeCfg :=
+  { exHost with
+    power := some .off,
+    services := [{ isApp := false, type := "database-service", opts := "fixing_duration=3", health := some .compromised }] }
+
+def exScenarioOff : Scenario := { exScenario with nodes := [exRouter, exHostOff] }
+
+theorem exScenarioOff_wf : WellFormed exScenarioOff := by
+  refine ⟨?_, by decide, by decide, by decide⟩
+  intro n hn
+  simp only [exScenarioOff, exScenario, List.mem_cons, List.not_mem_nil, or_false] at hn
+  rcases hn with rfl | rfl <;>
+    exact ⟨by decide, by decide, by decide, by decide, fun e _ h => absurd h (by decide), by decide, by decide⟩
+
+example : (build exScenarioOff).toOption.map (fun inv => inv.nodes.map fun n =>
+      (n.power, n.nics.map (fun c => (c.wired, c.enabled)), n.software.any (·.running))) =
+    some [(.on, [(true, true), (false, false), (false, false)], true),
+          (.off, [(true, false), (false, false), (false, false)], false)] := by decide
+
+example : (build exScenarioOff).toOption.map (fun inv => inv.nodes.map fun n =>
+      (n.software.filter (·.name = "database-service")).map (·.health)) = some [[], [.compromised]] := by decide
+
+example : build exScenarioOff = .ok (declared exScenarioOff) := C20_build_eq_declared _ exScenarioOff_wf
 
 /-- the same scenario with every mapping reversed -/
 def exScenarioRev : Scenario :=
@@ -1093,7 +1482,7 @@ example : scheduleDocs (⟨[(1, ["g1", "r1"]), (0, ["g0", "r0"])],
 
 /-- every mapping-iteration site of the loaders, with the lemma that makes the order of that mapping's entries irrelevant. -/
 def coveredSites : List ((String × String) × String) := [
-  (("PrimaiteGame.from_config", "sorted(node_cfg['network_interfaces'].items(), key=lambda item: item[0])"), "C20_site_network_interfaces_items"),
+  (("PrimaiteGame.from_config", "sorted(node_cfg['network_interfaces'].items(), key=lambda item: int(item[0]))"), "C20_site_network_interfaces_items"),
   (("Node._install_system_software", "self.SYSTEM_SOFTWARE.items()"), "class constant, not part of the scenario"),
   (("Router.from_config", "ports.items()"), "C20_site_ports_items"),
   (("Router.from_config", "acl.items()"), "C20_site_acl_items"),
@@ -1134,5 +1523,51 @@ uninstalled BEFORE the new instance is entered into `node.services/applications`
 table. -/
 theorem C20_gen_install_shape : Gen.Config.installGuardMapWrites = 1 ∧ Gen.Config.installGuardOnlyBare = true ∧
     Gen.Config.installReplacesNamesakeFirst = true ∧ Gen.Config.uninstallClearsClassMap = true := by decide
+
+/-- `EpisodeListScheduler.__call__` returns the value it has just parsed from the joined text — a fresh object on every call —,
+stores nothing on the instance or the class, and the class has no field beyond the four it documents (so nowhere to keep a parsed
+document); `ConstantEpisodeScheduler` hands out a deep copy. This is what lets `scheduleDocs` be a FUNCTION of the files: the
+loader may do what it likes to the object it is given without the next episode seeing it. -/
+theorem C20_gen_scheduler_fresh : Gen.Config.scheduleFreshPerCall = true ∧
+    Gen.Config.scheduleClassFields = ["schedule", "episode_data", "base_scenario", "_exceeded_episode_list"] ∧
+    Gen.Config.constantSchedulerCopies = true := by decide
+
+/-- no loader function pops from, deletes from, clears or item-assigns the mapping it is GIVEN (a parameter that has not been
+re-bound to a copy first): a second build from the same parsed scenario sees the same scenario. `build` is a function of the
+scenario alone for exactly this reason. -/
+theorem C20_gen_loader_reads_only : Gen.Config.loaderConsumesArgument = [] := by decide
+
+/-- every software constructor applies its configured options by plain assignment (`self.attr = self.config.opt`, at most under
+`if self.config.opt is not None`): no loop, no call fed with configured values, no test of the node's state — so the effect of
+an option cannot depend on the declared operating state of the node or on construction order, which is what the model assumes
+by carrying option mappings through unchanged. The table names, per class, the live attribute that carries each option (the rig
+reads the built value there). -/
+theorem C20_gen_software_options_applied : Gen.Config.softwareInitOtherConfigUses = [] ∧
+    Gen.Config.softwareInitApplies = [
+      ("C2Beacon", "c2_remote_connection", "c2_server_ip_address"),
+      ("DNSServer", "dns_table", "domain_mapping"),
+      ("DataManipulationBot", "data_manipulation_p_of_success", "data_manipulation_p_of_success"),
+      ("DataManipulationBot", "payload", "payload"),
+      ("DataManipulationBot", "port_scan_p_of_success", "port_scan_p_of_success"),
+      ("DataManipulationBot", "repeat", "repeat"),
+      ("DataManipulationBot", "server_ip_address", "server_ip"),
+      ("DataManipulationBot", "server_password", "server_password"),
+      ("DatabaseClient", "server_ip_address", "db_server_ip"),
+      ("DatabaseClient", "server_password", "server_password"),
+      ("DatabaseService", "backup_server_ip", "backup_server_ip"),
+      ("DoSBot", "dos_intensity", "dos_intensity"),
+      ("DoSBot", "max_sessions", "max_sessions"),
+      ("DoSBot", "payload", "payload"),
+      ("DoSBot", "port_scan_p_of_success", "port_scan_p_of_success"),
+      ("DoSBot", "repeat", "repeat"),
+      ("DoSBot", "target_ip_address", "target_ip_address"),
+      ("DoSBot", "target_port", "target_port"),
+      ("IOSoftware", "listen_on_ports", "listen_on_ports"),
+      ("NTPClient", "ntp_server", "ntp_server_ip"),
+      ("RansomwareScript", "payload", "payload"),
+      ("RansomwareScript", "server_ip_address", "server_ip"),
+      ("RansomwareScript", "server_password", "server_password"),
+      ("Software", "_fixing_countdown", "fixing_duration"),
+      ("Software", "health_state_actual", "starting_health_state")] := by decide
 
 end Primaite.Config
